@@ -67,6 +67,7 @@ class Borrowed:
         self.only = only
         self.pid = rep.pid
         self.tier = rep.tier
+        self.extra = {}     # notes of the borrowed module are not copied into this report
 
     def _r(self, rule):
         return '%s.%s' % (self.rep.pid, rule)
